@@ -108,7 +108,21 @@ pub fn case(cx: &mut Case) -> CaseResult {
             cx.fp.write_u64(*h as u64);
         }
     }
-    let all = [&a, &b, &c];
+    // Relatives of `a` of ANOTHER type that share its buffer at the same bit offset (or whose
+    // buffer `a` shares): the components of a product, and `a` wrapped into a product with unit.
+    // Equality must still be decided by type and content, never by where the bits live.
+    let mut relatives: Vec<Built> = vec![];
+    if let (RTyKind::Prod(x, y), RVal::Pair(vx, vy)) = (&ty.kind, &va) {
+        if let Some((l, r)) = a.value.as_product() {
+            relatives.push(Built { ty: x.clone(), val: (**vx).clone(), value: l.to_value(), tr: Trace::default() });
+            relatives.push(Built { ty: y.clone(), val: (**vy).clone(), value: r.to_value(), tr: Trace::default() });
+        }
+    }
+    relatives.push(Built { ty: RTy::prod(ty.clone(), RTy::unit()), val: RVal::pair(va.clone(), RVal::Unit), value: Value::product(a.value.shallow_clone(), Value::unit()), tr: Trace::default() });
+    relatives.push(Built { ty: RTy::prod(RTy::unit(), ty.clone()), val: RVal::pair(RVal::Unit, va.clone()), value: Value::product(Value::unit(), a.value.shallow_clone()), tr: Trace::default() });
+    cx.label("buffer-sharing relatives of another type compared");
+    let mut all: Vec<&Built> = vec![&a, &b, &c];
+    all.extend(relatives.iter());
     let model_eq = |x: &Built, y: &Built| *x.ty == *y.ty && x.val == y.val;
     let raw_differs = |x: &Built, y: &Built| !x.value.raw_byte_iter().eq(y.value.raw_byte_iter());
     let same_ab = model_eq(&a, &b);
@@ -127,7 +141,7 @@ pub fn case(cx: &mut Case) -> CaseResult {
     });
 
     // sanity: the histories produced what they should (otherwise the oracle below is moot)
-    for x in all {
+    for x in all.iter() {
         super::c10::check_denotes("built value", &x.value, &x.ty, &x.val).map_err(|e| format!("(value layout, see C10) {}", e))?;
     }
 
